@@ -1,0 +1,7 @@
+//go:build !verif
+
+package memory
+
+func verifAfterGrow(_ *Type, _ int) {}
+
+func verifClone(_ *Type) {}
